@@ -203,6 +203,8 @@ def run(ctx):
                         known_empty.append(item)
                     else:
                         failures.append(item)
+            if state and state[0] == -98:
+                failures.append(("two objects of the one section show different properties or values", {"history": ops[:ops.index(o) + 1]}, None))
             if state and state[0] == -99:
                 failures.append(("the section cannot be read any more", {"history": ops[:ops.index(o) + 1]}, None))
             prev = state
@@ -246,7 +248,9 @@ def run(ctx):
                 "numpy arrays, None / [] (clear); extend_values; mixed-type candidates with the odd element at every position, "
                 "bool/int/float confusion incl. numpy scalars, unsupported objects, integers beyond int64; dictionary-style get / "
                 "set / del / membership / len / iteration over an 8-name pool incl. a subsection named like a property; reopen. "
-                "After every op the result class, every property's type and values and the dict view are compared with the model.",
+                "After every op the result class, every property's type and values and the dict view are compared with the model. "
+                "The calls alternate between two Python objects of the section (and between a fresh and the first-obtained "
+                "Property object); both section objects must show the same state after every call.",
         "op_histogram": hist, "disagreements": len(disagreements), "spec_failures": len(failures),
         "samples": [cases[0][:5]],
     })
